@@ -5,6 +5,8 @@ C17.strings each pointer is the result of the 'anywhere' allocator for bytes(arg
 C17.align   the alignment test precedes the RSP store: a success return implies RSP & 0xf == 0
 C17.slot    argc sits at the address a hardware POP would read (RSP), and RSP / stack_top are the same value
 C17.space   the frame starts at the top of the allocated area: the space below RSP is the requested length (affine check)
+C17.retry   an occupied candidate address never aborts the initialisation: the error of creating the stack area is not
+            returned to the caller (the search goes on), unless the very same (start, size) range was probed before
 C17.plain   init_stack: aligned RSP inside the new area; stack_top = RSP + the RET sentinel offset
 Declined: success for every list length (value-dependent), parity reasoning about the alignment assertion.
 """
@@ -61,7 +63,16 @@ def program_start(ctx):
         if name == zn:
             p2 = path.copy()
             path.events.append(("stack_area", args[1], args[2]))
-            return [(A.OK(A.UNIT), path), (A.ERR(("e",)), p2)]
+            p2.events.append(("stack_area_err", args[1], args[2]))
+            return [(A.OK(A.UNIT), path), (A.ERR(("stack_area_err", args[1], args[2])), p2)]
+        lb = facts.bodies.get(name)
+        if lb is not None and lb.get("argc") == 3 and lb["locals"][0] in ("bool", ["bool"]) and lb["locals"][1][0] == "ref" \
+                and lb["locals"][2] == ["u", 64] and lb["locals"][3] == ["u", 64]:
+            # a range predicate over the area list (a candidate probe): both answers, the arguments are remembered
+            p2 = path.copy()
+            path.events.append(("probe", name, args[1], args[2], 1))
+            p2.events.append(("probe", name, args[1], args[2], 0))
+            return [(A.INT(1, 8), path), (A.INT(0, 8), p2)]
         if short == "push" and args and args[0][0] == "ref":
             tgt = I.read_loc(path, args[0][1])
             path.events.append(("push", args[0][1], args[1], tgt))
@@ -77,6 +88,28 @@ def program_start(ctx):
     ck.floor("success paths", len(oks), 10)
     obad = sbad = abad = slot_bad = space_bad = None
     n_slot = 0
+    # ---- retry: a failed creation of the stack area is not the function's result
+    rbad = None
+    ncreate = 0
+    for o in outs:
+        if o.kind != "return":
+            continue
+        ncreate += sum(1 for e in o.path.events if e[0] in ("stack_area", "stack_area_err"))
+        if not is_err(o):
+            continue
+        for x in H.leaves_all(o.value, "stack_area_err"):
+            probed = any(e[0] == "probe" and U.affine_eq(e[2], x[1]) and U.affine_eq(e[3], x[2]) for e in o.path.events)
+            if not probed:
+                pr_ = [e for e in o.path.events if e[0] == "probe"]
+                rbad = rbad or ("the error of creating the stack area at a candidate address is returned instead of trying the next "
+                                "candidate%s" % ("; the range probed (%s bytes) is not the range allocated" % A.show(U.strip(pr_[-1][3]))[:40] if pr_ else ""))
+    if ncreate == 0:
+        rbad = rbad or "no stack area creation found"
+    if rbad:
+        ck.violation("C17.retry", "api=init_stack_program_start", rbad, where=where,
+                     what="with another area in the way of the first candidate, initialisation fails although free candidates remain")
+    else:
+        ck.ok("C17.retry", "api=init_stack_program_start", ncreate)
     for o in oks:
         evs = o.path.events
         # the layout vector = the first vector pushed to
